@@ -196,15 +196,17 @@ def v1MessageId : J → R J
       else .error (.proto (invalidRequest "request has no \"id\""))
   | _ => .error (.py .typeError)       -- argument of type 'int'/'NoneType'/.. is not iterable
 
-/-- `JSONRPCv2._message_id` (also `JSONRPCLoose._message_id`).  As the code stands a `bool` id
-is accepted, because `isinstance(True, Number)` (finding F7, owned by C01). -/
+/-- `JSONRPCv2._message_id` (also `JSONRPCLoose._message_id`).  A `bool` id is refused although
+`isinstance(True, Number)` holds (the F7 repair: `isinstance(request_id, bool) or not
+isinstance(request_id, (Number, str, type(None)))`). -/
 def v2MessageId (message : J) (requireId : Bool) : R J :=
   match message with
   | .obj kvs =>
       match J.lookup kId kvs with
       | some rid =>
-          if rid.isNumber || rid.isStr || rid.isNone then .ok rid
-          else .error (.proto (invalidRequest "invalid \"id\""))
+          if rid.isBool || !(rid.isNumber || rid.isStr || rid.isNone) then
+            .error (.proto (invalidRequest "invalid \"id\""))
+          else .ok rid
       | none =>
           if requireId then .error (.proto (invalidRequest "request has no \"id\""))
           else .ok .null
